@@ -198,7 +198,11 @@ func (p Prop) toProto(env EnumEnv, number int32) *schema_j5pb.ObjectProperty {
 		}
 		op.Schema = &schema_j5pb.Field{Type: &schema_j5pb.Field_Array{Array: a}}
 	case PMap:
-		op.Schema = &schema_j5pb.Field{Type: &schema_j5pb.Field_Map{Map: &schema_j5pb.MapField{ItemSchema: item, KeySchema: &schema_j5pb.Field{Type: &schema_j5pb.Field_String_{}}}}}
+		m := &schema_j5pb.MapField{ItemSchema: item, KeySchema: &schema_j5pb.Field{Type: &schema_j5pb.Field_String_{}}}
+		if r := p.MapR; r != nil {
+			m.Rules = &schema_j5pb.MapField_Rules{MinPairs: r.Min, MaxPairs: r.Max}
+		}
+		op.Schema = &schema_j5pb.Field{Type: &schema_j5pb.Field_Map{Map: m}}
 	}
 	return op
 }
@@ -311,6 +315,9 @@ func propFromProto(env EnumEnv, op *schema_j5pb.ObjectProperty) (Prop, bool) {
 		p.T, ok = ftyFromProto(t.Array.Items)
 	case *schema_j5pb.Field_Map:
 		p.PK = PMap
+		if r := t.Map.Rules; r != nil {
+			p.MapR = &MapRules{Min: r.MinPairs, Max: r.MaxPairs}
+		}
 		p.T, ok = ftyFromProto(t.Map.ItemSchema)
 	default:
 		p.T, ok = ftyFromProto(op.Schema)
@@ -390,6 +397,9 @@ func normProp(env EnumEnv, p Prop) Prop {
 	// constraint, i.e. also when only the items have one
 	if p.PK == PArray && p.Arr == nil && itemsCarryConstraint(p.T) {
 		q.Arr = &ArrRules{}
+	}
+	if p.PK == PMap && p.MapR == nil && itemsCarryConstraint(p.T) {
+		q.MapR = &MapRules{}
 	}
 	return q
 }
@@ -716,7 +726,7 @@ func runC04(cfg *vh.Config) error {
 				}
 				res.Fail(vh.Failure{Case: caseNo, Stream: "reflect", Sig: sig,
 					Clause: "reflection yields the declared schema", Input: map[string]any{"j5s": p.P.J5S(theEnum), "object": src},
-					Got:    protoString(reflProps[i]), Want: protoString(want)})
+					Got: protoString(reflProps[i]), Want: protoString(want)})
 			}
 		}
 		// ---- direct oracle 2: the printed text reflects to the same schema
@@ -792,19 +802,19 @@ func asymmetryClass(p genDecl) (string, []string) {
 	}
 	t := p.P.T
 	switch {
-	case p.P.PK == PMap:
-		return "C04 map: rules, list rules and formats of the item schema are written on the entry's value field and not read back", []string{item}
+	case p.P.PK == PMap && t.List != nil:
+		return "C04 map: list rules of the item schema are written on the entry's value field and not read back", []string{item}
 	case t.Kind == TKey && t.KF == KCustom:
 		return "C04 key:custom: the pattern is written as (buf.validate.field).string.pattern and not read back as a key format", []string{item + ".key", item + ".string"}
 	case t.Kind == TKey && t.KF == KInformal:
 		return "C04 key:informal: reads back as a key without format (or as a string inside an array)", []string{item + ".key", item + ".string"}
 	case t.Kind == TKey && t.KF == KNone && t.List != nil:
 		return "C04 key without format but with list rules: reads back as key:informal", []string{item + ".key.format"}
-	case t.Kind == TKey && t.KF == KNone && p.P.PK == PArray && t.Entity == nil:
+	case t.Kind == TKey && t.KF == KNone && p.P.PK != PSingle && t.Entity == nil:
 		return "C04 array of key without format: (j5.ext.v1.field) is the array's, the items read back as string", []string{item + ".key", item + ".string"}
-	case (t.Kind == TDate || t.Kind == TDecimal) && t.Txt != nil && p.P.PK == PArray:
+	case (t.Kind == TDate || t.Kind == TDecimal) && t.Txt != nil && p.P.PK != PSingle:
 		return "C04 array of date/decimal with rules: the rules live in (j5.ext.v1.field), which the array annotation overwrites", []string{item + ".date.rules", item + ".decimal.rules"}
-	case t.Kind == TObject && t.Flatten && p.P.PK == PArray:
+	case t.Kind == TObject && t.Flatten && p.P.PK != PSingle:
 		return "C04 array of flattened object: flatten lives in (j5.ext.v1.field), which the array annotation overwrites", []string{item + ".object.flatten"}
 	}
 	return "", nil
